@@ -13,7 +13,7 @@ Import W.
 Definition chainS : list Z := List.map Z.of_nat (seq 100 1002).
 Definition gS : Z := thd wH wfh chainS 0.
 Definition aS : alog2 := {| abl := chainS; afl := [gS] |}.
-Definition cS : lcfg := {| c_hard := fun _ => None; c_cp := None; c_genesis := gS; c_legacy := false |}.
+Definition cS : lcfg := {| c_hard := fun _ => None; c_cp := None; c_genesis := gS; c_legacy := false; c_height_only := false |}.
 Definition dS : rdata := rd [hon_cpans 1 chainS] [] [hon_arr 1 chainS 0 0 1000].
 Definition sS : lstate := linit aS [1] false.
 
@@ -58,6 +58,19 @@ Qed.
 
 Lemma run_S : summary (lrun wH cS sS [ERound dS]) = (0, [], 1000, 1001).
 Proof. vm_compute. reflexivity. Qed.
+
+Definition parS (x : Z) : Z := x - 1.
+
+Lemma parent_S : parent_ok parS (abl aS) /\ head (abl aS) = Some 100.
+Proof.
+  split; [|reflexivity]. intros i x y Hx Hy. unfold aS, chainS in *. cbn [abl] in *.
+  change (List.map Z.of_nat (seq 100 1002)) with (Z.of_nat <$> seq 100 1002) in *.
+  rewrite list_lookup_fmap in Hx, Hy.
+  destruct (seq 100 1002 !! i) as [a|] eqn:Ea; [|discriminate].
+  destruct (seq 100 1002 !! S i) as [b|] eqn:Eb; [|discriminate].
+  apply lookup_seq in Ea as [-> _]. apply lookup_seq in Eb as [-> _].
+  cbn in Hx, Hy. injection Hx as <-. injection Hy as <-. unfold parS. lia.
+Qed.
 
 Lemma init_S : wf_chain (abl aS) /\ committed_true wH wfh aS /\ c_genesis cS = thd wH wfh (abl aS) 0.
 Proof.
